@@ -55,7 +55,7 @@ def nibble (h : UInt8) : Int :=
 
 /-- `16 * nibble(a) | nibble(b)`.  Core Lean has no bitwise or on `Int`; the expression is only evaluated
     after `isxdigit` accepted both characters, where both operands are natural numbers
-    (`C18.nibble_xdigit`), so it is computed on `Nat`. -/
+    (`Lemmas.Hex.nibble_xdigit`), so it is computed on `Nat`. -/
 def byteVal (a b : UInt8) : Int := (((16 * nibble a).toNat ||| (nibble b).toNat : Nat) : Int)
 
 /-! ### hex_dump_to_file -/
@@ -168,8 +168,8 @@ def step (nl : Bool) (s0 : Str) : Step :=
   | .ok s => body s
 
 /-- The goto structure of `hex_get_byte` as a recursion: every `goto next_line` and every iteration of the
-    white-space loop continues on a strictly shorter rest of the string (`C18.step_jump`), so a budget
-    larger than the remaining length is never exhausted (`C18.scan_fuel`, `C18.parser_safe`). -/
+    white-space loop continues on a strictly shorter rest of the string (`Lemmas.Hex.step_spec`), so a budget
+    larger than the remaining length is never exhausted (`Lemmas.Hex.scan_fuel`, `C18.parser_safe`). -/
 def scan : Nat → Bool → Str → Out
   | 0, _, _ => .nofuel
   | fuel + 1, nl, s =>
